@@ -157,11 +157,15 @@ def fix(
     if not fix_even_unparsable:
         # If fix_even_unparsable wasn't set, check for templating or parse
         # errors and suppress fixing if there were any.
-        _, num_filtered_errors = result.count_tmp_prs_errors()
-        if num_filtered_errors > 0:
+        # NOTE: Suppressed (noqa / ignore / warning) templating or parsing
+        # errors still block fixing, as they do for the CLI.
+        num_total_errors, _ = result.count_tmp_prs_errors()
+        if num_total_errors > 0:
             should_fix = False
-    if should_fix:
-        sql = result.paths[0].files[0].fix_string()[0]
+    linted_file = result.paths[0].files[0]
+    # Without a successfully templated and parsed file there is nothing to fix.
+    if should_fix and linted_file.tree and linted_file.templated_file:
+        sql = linted_file.fix_string()[0]
     return sql
 
 
